@@ -226,6 +226,28 @@ def run(ctx):
         r = recs[idx]
         ctx.violation({"item": item, "clause": why},
                       {"record": r, **det})
+    # temperature items: write the shown value of a raw word, the device write must carry that word
+    # (both units, both write paths; the arithmetic itself is C14's subject and judged by its module)
+    import asyncio as _a
+    from .c14 import temp_records, pairs as _pairs
+    trecs, tmeta = [], []
+    loop = _a.new_event_loop()
+    done_plat = set()
+    for plat, c, l in _pairs():
+        if plat in done_plat:
+            continue
+        raws = sorted({0, 1, 17, 18, 200, 201, 319, 320, 321, 555, 684, 702, 1023, 65535, *[rng.randrange(65536) for _ in range(60)]})
+        if temp_records(c, l, raws, lambda lo, hi: [], rng, trecs, tmeta, loop):
+            done_plat.add(plat)
+    loop.close()
+    tbad, tn = tlc.judge("C14_Judge", trecs, "c02-temp", chunk=40000)
+    for idx, why in tbad:
+        r_ = trecs[idx]
+        ctx.violation({"item": tmeta[idx][0].split("+")[0].rsplit("-cfg", 1)[0] + ":temperature", "clause": "temperature-" + r_["kind"],
+                       "unit": r_.get("unit"), "path": r_.get("path")}, {"where": tmeta[idx][0], "record": r_})
+    n += tn
+    bad = list(bad) + list(tbad)
+    ev.cov["temperature_records"] = tn
     ev.cov["evaluations"] = n
     ev.cov["traces_validated_against_impl"] = n - len(bad)
     ev.cov["items"] = len({m[0] for m in meta})
@@ -240,7 +262,7 @@ def run(ctx):
     for i in (0, len(recs) // 2, len(recs) - 1):
         ev.sample({"item": meta[i][0], **{k: v for k, v in recs[i].items()}})
     ev.assumptions += [
-        "temperature items are judged by C14 (they need the unit item of the paired config table)",
+        "temperature items are exercised on one config/log pair per platform (they need the unit item of the config table) with the arithmetic judged by C14's module",
         "a device write is applied to the block the way the spa/simulator applies it: big-endian word at (pos, len)",
         "'other items' are those of the same table within 2 bytes that share no bit with the written item",
     ]
